@@ -1125,6 +1125,151 @@ def records_batch(ctx, drv, triangles, scratch, tag):
             ctx.disagree("to_binary bytes = Model.encodePy bytes", case, model=out["bytes"][:4000], impl=B.hex()[:4000])
 
 
+def same_path_stream(ctx, drv, scratch, n, compressed=True):
+    """State keyed by the PATH of a file (lesson 6, reader side): in one process, load path p, overwrite the same p with
+    a VALUE TWIN whose file has exactly the same size (same coordinates / keys / kinds / shapes, other values), restore
+    the first write's timestamps with os.utime, load p again — the second result is judged against the twin exactly
+    like any round trip (Model.decode of the bytes on disk, Spec.roundTrip on what from_binary returned) — then restore
+    the first content and load a third time; also in the reverse order (twin first) at another path, and with the bytes
+    of the INDEPENDENT encoder (Model.encode) written over the existing path. Both flavours when `compressed`."""
+    rng = ctx.rng
+
+    def rebuild(kind, c, vals):
+        return lcell(kind, c.period_start, c.period_end, c.evaluation_date, vals, c.metadata,
+                     prev=getattr(c, "prev_evaluation_date", None))
+
+    def twin_all(kind, cells):
+        return [rebuild(kind, c, {k: other_value(rng, v) for k, v in c.values.items()}) for c in cells]
+
+    def twin_one(kind, cells):
+        spots = [(i, k) for i, c in enumerate(cells) for k, v in c.values.items()
+                 if type(v) in (int, float) or (type(v) is np.ndarray and v.size)]
+        if not spots:
+            return None
+        i, k = rng.choice(spots)
+        out = list(cells)
+        v = cells[i].values[k]
+        if type(v) is np.ndarray:
+            nv = np.ascontiguousarray(v).copy()
+            nv.reshape(-1)[rng.randrange(nv.size)] = 3
+            if np.array_equal(nv, v):
+                nv.reshape(-1)[0] = 5
+        else:
+            nv = other_value(rng, v)
+        out[i] = rebuild(kind, cells[i], {**cells[i].values, k: nv})
+        return out
+
+    plans = []          # (tag, ext, kw, [(label, Triangle, wire, bytes-on-disk)], path)
+    side = os.path.join(scratch.dir, "probe")
+    os.makedirs(side, exist_ok=True)
+    for it in range(n):
+        for ext, kw in ((".trib", {}),) + (((".tribc", {"compress": True}),) if compressed else ()):
+            found = None
+            for _try in range(12):
+                cells, desc = gen_cells(rng, small=True, n_keys=rng.choice([2, 3, 5, 8]))
+                if not cells or not any(c.values for c in cells):
+                    continue
+                st, ta = xcall(Triangle, cells)
+                if st != "ok":
+                    continue
+                a = list(ta.cells)
+                name = f"same{it}{ext}"
+                st, bytes_a = xcall(write_file, ta, os.path.join(side, name), **kw)
+                if st != "ok":
+                    continue
+                for _c in range(1 if ext == ".trib" else 60):
+                    b = twin_all(desc["kind"], a) if ext == ".trib" else twin_one(desc["kind"], a)
+                    if b is None:
+                        break
+                    st, tb = xcall(Triangle, b)
+                    if st != "ok":
+                        continue
+                    st, bytes_b = xcall(write_file, tb, os.path.join(side, name), **kw)
+                    if st == "ok" and len(bytes_b) == len(bytes_a) and bytes_b != bytes_a:
+                        found = (ta, tb, name)
+                        break
+                if found:
+                    break
+            if not found:
+                ctx.count(f"lesson/same-path/{ext}: no same-size twin found")
+                continue
+            ta, tb, name = found
+            wa, wb = raw_cells(ta.cells, strict=False), raw_cells(tb.cells, strict=False)
+            for order, seq in (("A,B,A", [("A", ta, wa), ("B", tb, wb), ("A", ta, wa)]),
+                               ("B,A,B", [("B", tb, wb), ("A", ta, wa), ("B", tb, wb)])):
+                pth = os.path.join(scratch.dir, f"{order[0]}-{name}")
+                plans.append((order, ext, kw, seq, pth))
+    # phase 1: the implementation's own files over one path
+    reqs, infos = [], []
+    model_jobs = []
+    for order, ext, kw, seq, pth in plans:
+        stamp = None
+        size0 = None
+        for step, (label, tri, wire) in enumerate(seq):
+            st, data = xcall(write_file, tri, pth, **kw)
+            if st != "ok":
+                ctx.fail("to_binary raised when overwriting an existing file", {"cells": wire}, {"error": data})
+                break
+            if stamp is None:
+                fst = os.stat(pth)
+                stamp, size0 = (fst.st_atime_ns, fst.st_mtime_ns), len(data)
+            elif len(data) != size0:
+                ctx.count(f"lesson/same-path/{ext}: size changed (skipped)")
+                break
+            os.utime(pth, ns=stamp)
+            d = read_dump(pth) if step % 2 == 0 else read_dump(pth, compress=bool(kw.get("compress", False)))
+            with open(pth, "rb") as f:
+                disk = f.read()
+            raw = gzip.decompress(disk) if kw.get("compress") else disk
+            ctx.count(f"lesson/same-path/{ext}/{order}/read#{step + 1}")
+            ctx.case(digest=f"same-path/{ext}/{order}/{step}/" + sha(disk), nontrivial=True,
+                     sample={"op": "same-path overwrite", "ext": ext, "order": order, "bytes": len(disk)} if not infos else None)
+            reqs.append({"op": "case", "cells": wire, "file": raw.hex(), "impl": d[1] if d[0] == "ok" else None})
+            infos.append((f"from_binary({ext}) of a path overwritten in place ({order}, read #{step + 1} expects {label}; same size, "
+                          "same timestamps)", wire, d, raw))
+        if ext == ".trib":
+            model_jobs.append((order, seq, pth, stamp))
+    outs = drv.run(reqs)
+    model_bytes = {}
+    for (what, wire, d, raw), out in zip(infos, outs):
+        case = {"cells": wire, "file_on_disk": raw.hex() if len(raw) < 100000 else f"{len(raw)} bytes"}
+        if out["wf"] and out.get("coherent", True):
+            model_bytes[json.dumps(wire, sort_keys=True)] = bytes.fromhex(out["bytes"])
+            if not out.get("fileDecodeEq", False):
+                ctx.disagree("Model.decode of the bytes on disk = the triangle written last", case, model=out.get("fileDecode"))
+        if d[0] == "err":
+            ctx.fail(f"{what}: raised", case, {"error": d[1]})
+        elif d[0] == "bad":
+            ctx.fail(f"{what}: a value changed its type", case, {"what": d[1]})
+        elif not out["spec"]:
+            ctx.fail(f"{what}: the triangle returned is not the one the bytes on disk hold", case, {"read": d[1]})
+    # phase 2: bytes of the INDEPENDENT encoder written over the existing path (same size, same timestamps)
+    reqs, infos = [], []
+    for order, seq, pth, stamp in model_jobs:
+        if stamp is None:
+            continue
+        for step, (label, tri, wire) in enumerate(list(reversed(seq))[:2]):      # the path currently holds seq[-1]
+            mb = model_bytes.get(json.dumps(wire, sort_keys=True))
+            if mb is None or len(mb) != os.stat(pth).st_size:
+                continue
+            with open(pth, "wb") as f:
+                f.write(mb)
+            os.utime(pth, ns=stamp)
+            d = read_dump(pth)
+            ctx.count(f"lesson/same-path/independent-encoder-bytes/{order}/read#{step + 1}")
+            ctx.case(digest=f"same-path/model/{order}/{step}/" + sha(mb), nontrivial=True, sample=None)
+            reqs.append({"op": "spec", "cells": wire, "impl": d[1] if d[0] == "ok" else None})
+            infos.append((f"from_binary of Model.encode bytes written over an existing path (expects {label}; same size, same "
+                          "timestamps)", wire, d, mb))
+    for (what, wire, d, mb), out in zip(infos, drv.run(reqs)):
+        case = {"cells": wire, "file_on_disk": mb.hex() if len(mb) < 100000 else f"{len(mb)} bytes"}
+        if d[0] != "ok":
+            ctx.fail(f"{what}: {'raised' if d[0] == 'err' else 'a value changed its type'}", case, {"error": d[1]})
+        elif not out["spec"]:
+            ctx.fail(f"{what}: the triangle returned is not the one the bytes on disk hold", case, {"read": d[1]})
+
+
+
 def lesson_stream(ctx, drv, scratch, compressed=True, heavy=True):
     """runs the lesson groups through roundtrip_batch; returns them (C06 re-uses the triangles for order independence)"""
     if os.environ.get("VERIF_SKIP_LESSONS"):
@@ -1138,6 +1283,7 @@ def lesson_stream(ctx, drv, scratch, compressed=True, heavy=True):
             records_batch(ctx, drv, group, scratch, "lesson")
         if len(ctx.spec_failures) > 40:
             break
+    same_path_stream(ctx, drv, scratch, 4 if not ctx.thorough else 16, compressed=compressed)
     return groups
 
 
